@@ -243,6 +243,37 @@ def step (w : World) (j : Json) : World × List String :=
         let (n2, l) := entrySolo w.now acc.1 is "revocation"
         (n2, insertStr l acc.2)) (n, [])
     (w.set node n', ["par " ++ String.intercalate " ; " ls])
+  | "mix" =>
+    -- the harness runs these concurrently; any serial order gives the same sorted answers (see the harness)
+    let revs := (jArr j "revokes").map fun s => (parseUrl (jObj s "list"), jStr s "idx")
+    let lists := (revs.map (·.1)).eraseDups
+    let serveBits (n : Node) (u : Url) : Node × String :=
+      match u with
+      | .sl _ issuer page =>
+        match credential env w.now n issuer page with
+        | .ok (vc, n') =>
+          (n', match vc.body.subjects with
+               | [s] => (match s.enc with | .ok bits => bitsStr bits.setBits | _ => "malformed")
+               | _ => "malformed")
+        | _ => (n, "none")
+      | .raw _ => (n, "none")
+    let n0 := lists.foldl (fun (acc : Node) u => (serveBits acc u).1) n
+    let (n1, es) := (jStrs j "issuers").foldl (fun (acc : Node × List String) is =>
+        let (n2, l) := entrySolo w.now acc.1 is "revocation"
+        (n2, insertStr l acc.2)) (n0, [])
+    let (n2, rs) := revs.foldl (fun (acc : Node × List String) (r : Url × String) =>
+        let e : StatusEntry := { list := r.1, idx := atoi r.2 }
+        match revoke env w.now acc.1 ("did:web:example.com#" ++ r.2) e with
+        | .ok n' => (n', insertStr s!"{urlName r.1}#{r.2}:ok" acc.2)
+        | res => (acc.1, insertStr s!"{urlName r.1}#{r.2}:{resErr res}" acc.2)) (n1, [])
+    let (n3, afters) := ((lists.map fun u => (urlName u, u)).foldl (fun (acc : List (String × Url)) x =>
+          let rec ins : List (String × Url) → List (String × Url)
+            | [] => [x]
+            | y :: ys => if x.1 < y.1 then x :: y :: ys else y :: ins ys
+          ins acc) []).foldl (fun (acc : Node × List String) (x : String × Url) =>
+        let (n', b) := serveBits acc.1 x.2
+        (n', acc.2 ++ [s!"{x.1}={b}"])) (n2, [])
+    (w.set node n3, [s!"mix entries=[{String.intercalate " ; " es}] revokes=[{String.intercalate " " rs}] after=[{String.intercalate " " afters}] mid=ok"])
   | "bump" =>
     let u := parseUrl (jObj j "list")
     let to := jNat j "to"
